@@ -134,7 +134,8 @@ CHECKS["C12"] = dict(
          "the pinned commit), leading_space_irrelevant, renumber_invariant (any order-preserving renumbering of the levels that occur gives the "
          "same forest). Clause layer (Props/C12Clause.lean over the word-level model Model/Clause.lean of clause_dict): parse_entry -- for EVERY head "
          "and EVERY list of well-formed clauses, in any order and spelling, the parser returns the head's name and exactly the clauses' meanings; "
-         "spelling_irrelevant (optional words IS/TIMES/USAGE/ON/WHEN/SIGN, synonyms), order_irrelevant (any permutation), name_kept. Tied by the "
+         "spelling_irrelevant (optional words IS/TIMES/USAGE/ON/WHEN/SIGN, synonyms), order_irrelevant (any permutation), name_kept, "
+         "estruct_agrees_with_parser (the second reader of the entry text, estruct.Representation.parse, takes the same USAGE and PICTURE). Tied by the "
          "pinned CLAUSES source and by correspondence with the real clause_dict on canonical entries and on word soup (exhaustive over short "
          "sequences of a 40-word vocabulary). On top, a METAMORPHIC oracle on the real code: every rewrite kind alone and in random compositions "
          "must leave layout and decoded values unchanged; reference_format+dde_sentences are corresponded with RefFormat.parseText.",
